@@ -169,7 +169,15 @@ func FamilyName(thorough bool) []*Conv {
 				Params: "source " + sh.t, Results: sh.t, Decls: zoo, Spec: &Spec{},
 			})
 		}
-		exotic := "struct {\n\t\tIn   <-chan int\n\t\tOut  chan<- string\n\t\tBoth chan *PFXEmb\n\t\tF    func(a int, rest ...string) (bool, error)\n\t\tI    interface{ M(x int) string }\n\t\tG    func(tags []string, more [][]int, values ...interface{})\n\t\tH    func(...[]string) []string\n\t\tJ    func(fn func(xs []int, ys ...int), zs ...func(...int))\n\t\tI2   interface{ M(xs []string, rest ...int) }\n\t\tB    PFXBox[[]int]\n\t\tA    [3]*int\n\t\tE    interface{}\n\t}"
+		for _, sh := range []struct{ name, t string }{
+			{"nested_generic_top", "PFXBox[PFXBox[int]]"}, {"nested_generic_elem", "[]PFXBox[PFXBox[PFXEmb]]"}, {"nested_generic_three", "*PFXBox[PFXBox[PFXBox[string]]]"},
+		} {
+			out = append(out, &Conv{
+				ID: "name/rendered_" + sh.name + "/" + f, Family: "name", Format: f,
+				Params: "source " + sh.t, Results: sh.t, Decls: zoo, Spec: &Spec{},
+			})
+		}
+		exotic := "struct {\n\t\tIn   <-chan int\n\t\tOut  chan<- string\n\t\tBoth chan *PFXEmb\n\t\tF    func(a int, rest ...string) (bool, error)\n\t\tI    interface{ M(x int) string }\n\t\tG    func(tags []string, more [][]int, values ...interface{})\n\t\tH    func(...[]string) []string\n\t\tJ    func(fn func(xs []int, ys ...int), zs ...func(...int))\n\t\tI2   interface{ M(xs []string, rest ...int) }\n\t\tB    PFXBox[[]int]\n\t\tBB   PFXBox[PFXBox[int]]\n\t\tBP   PFXBox[*PFXBox[string]]\n\t\tBM   map[string]PFXBox[PFXBox[PFXEmb]]\n\t\tA    [3]*int\n\t\tE    interface{}\n\t}"
 		out = append(out, &Conv{
 			ID: "name/rendered_exotic_types/" + f, Family: "name", Format: f,
 			Params: "source map[string]" + exotic, Results: "map[PFXKeyT]" + exotic, Decls: zoo + "type PFXKeyT string\n",
